@@ -48,3 +48,92 @@ pub fn render_case(rs: &RSchema, w: &World, r: Option<&Req>) -> String {
         r.map(|r| format!("principal={}::{:?} action={}::{:?} resource={}::{:?} context={}", r.principal.ty, r.principal.id, r.action.ty, r.action.id, r.resource.ty, r.resource.id, semit::value_json_explicit(&crate::refmodel::V::Rec(r.context.clone())))).unwrap_or_default()
     )
 }
+
+
+// ---------------------------------------------------------------------------------------------
+// the "authorization-equivalence" family: schema, strictly valid policies, conformant world and request
+
+use crate::emit::{policy as pemit, text};
+use crate::refmodel::policy::RPolicy;
+use cedar_policy::{Policy, PolicyId, PolicySet, ValidationMode, Validator};
+
+pub struct AuthCase {
+    pub rs: RSchema,
+    pub schema: Schema,
+    /// (id, reference policy, text) — each strictly valid on its own and as a set
+    pub policies: Vec<(String, RPolicy, String)>,
+    pub pset: PolicySet,
+    pub world: World,
+    pub ents: Entities,
+    pub req: Req,
+    pub creq: Request,
+    pub max_derefs: usize,
+    pub uses_tags: bool,
+    pub uses_optional: bool,
+}
+
+pub struct AuthOpts {
+    pub schema: SchemaOpts,
+    pub max_policies: usize,
+    pub depth: usize,
+    pub path_budget: usize,
+    pub traps: bool,
+}
+
+/// Err(reason) = discard (counted by the caller)
+pub fn gen_auth_case(t: &mut Tape, o: &AuthOpts) -> Result<AuthCase, String> {
+    let rs = s::gen_schema(t, &o.schema);
+    let schema = build_schema(&rs).map_err(|e| format!("gen-rejected: schema: {e}"))?;
+    let envs = s::all_envs(&rs);
+    if envs.is_empty() {
+        return Err("no-env".into());
+    }
+    let validator = Validator::new(schema.clone());
+    let n = 1 + t.upto(o.max_policies);
+    let mut policies = Vec::new();
+    let mut pset = PolicySet::new();
+    let (mut max_derefs, mut uses_tags, mut uses_optional) = (0, false, false);
+    let mut first_env = None;
+    for i in 0..n {
+        // policies share an environment with probability 2/3 so that several apply to the request
+        let (a, pt, rt) = match &first_env {
+            Some(e) if t.bool_p(2, 3) => *e,
+            _ => {
+                let e = &envs[t.upto(envs.len())];
+                (e.0, &e.1, &e.2)
+            }
+        };
+        if first_env.is_none() {
+            first_env = Some((a, pt, rt));
+        }
+        let trap = o.traps && t.bool_p(1, 3);
+        let depth = 1 + t.upto(o.depth);
+        let tp = s::gen_policy_for(t, &rs, a, pt, rt, depth, o.path_budget, trap, 0);
+        let txt = pemit::policy_text(&tp.policy, &mut text::Style::canonical());
+        let id = format!("p{i}");
+        let Ok(pol) = Policy::parse(Some(PolicyId::new(&id)), &txt) else { return Err("harness: generated policy does not parse".into()) };
+        let single = PolicySet::from_policies([pol.clone()]).map_err(|e| e.to_string())?;
+        if validator.validate(&single, ValidationMode::Strict).validation_passed() {
+            let _ = pset.add(pol);
+            max_derefs = max_derefs.max(tp.max_derefs);
+            uses_tags |= tp.uses_tags;
+            uses_optional |= tp.uses_optional;
+            policies.push((id, tp.policy, txt));
+        }
+    }
+    if policies.is_empty() {
+        return Err("no-valid-policy".into());
+    }
+    let world = s::gen_world(t, &rs);
+    let ents = build_entities(&world, &schema).map_err(|e| format!("gen-rejected: world: {e}"))?;
+    let (a, pt, rt) = first_env.unwrap();
+    let req = s::gen_request_for(t, &rs, a, pt, rt);
+    let creq = build_request(&req, &schema).map_err(|e| format!("gen-rejected: request: {e}"))?;
+    Ok(AuthCase { rs, schema, policies, pset, world, ents, req, creq, max_derefs, uses_tags, uses_optional })
+}
+
+impl AuthCase {
+    pub fn render(&self) -> String {
+        format!("{}\npolicies:\n{}", render_case(&self.rs, &self.world, Some(&self.req)), self.policies.iter().map(|(id, _, t)| format!("// {id}\n{t}")).collect::<Vec<_>>().join("\n"))
+    }
+}
